@@ -14,11 +14,14 @@ def gen_cases(ctx, n_graphs, cfgs_per_graph):
     for gi in range(n_graphs):
         # every 6th graph is directed with >= 36 thin layers (long runs of the "all seen layers" branch of the BFS)
         gd = (G.gen_deep_directed(rng, ctx.budget(1500, 3000), min_layers=36) if gi % 6 == 5 else
-              G.gen_overflow_matrix_graph(rng, 400) if gi % 6 == 2 and gi % 12 == 2 else G.gen_graph(rng, cap=ctx.budget(400, 3000)))
+              G.gen_overflow_matrix_graph(rng, 400) if gi % 12 == 2 else G.gen_extreme_codes(rng, ctx.budget(400, 3000)) if gi % 12 == 8 else
+              G.gen_graph(rng, cap=ctx.budget(400, 3000)))
         layers, dist = G.ref_bfs(gd, [gd["central"]])
         starts = G.gen_starts(rng, gd, dist)
-        for _ in range(cfgs_per_graph):
+        for ci in range(cfgs_per_graph):
             cfgd = G.gen_config(rng, gd)
+            if gi % 12 == 8 and ci == 0:
+                cfgd["bit_encoding_width"] = "auto"      # one 64-bit word, identity hash
             kw = {}
             if rng.random() < 0.5:
                 kw["return_all_hashes"] = True
@@ -87,6 +90,21 @@ def run(ctx):
     ctx.cov["disagreements_checked"] = len(coq_cases)
     for i in bad[:3]:
         ctx.violation("correspondence", "BFS model and implementation differ (sizes/layers/hashes/edges/flag)", metas[i], False)
+    # non-vacuity of the END-TO-END theorems (InstPerm.v / InstBfs.v) measured on this run's cases: how many permutation cases satisfy wf_perm_desc with
+    # start sets inside Ustates (then C01_perm_completed_correct applies with NoColl only), and how many of those have a one-word identity-hash code
+    # (then C01_perm_identity_hash_unconditional applies with no hash hypothesis at all)
+    perm_idx = [i for i, m in enumerate(metas) if m["graph"]["kind"] == "perm"]
+    perm_cases = [coq_cases[i] for i in perm_idx]
+    not_wf = ctx.coq_failing("Base Bfs BfsRun GraphImpl Hash Tensor InstPerm", "", "bfs_case", perm_cases,
+                             "fun c => wf_perm_descb (c_g c) && forallb (Ustatesb (c_g c)) (c_starts c)", "instwf", shard=200)
+    not_unc = ctx.coq_failing("Base Bfs BfsRun GraphImpl Hash Tensor InstPerm", "", "bfs_case", perm_cases,
+                              "fun c => wf_perm_descb (c_g c) && forallb (Ustatesb (c_g c)) (c_starts c) && "
+                              "match g_hasher (c_g c) with HIdentity => single_wordb (c_g c) | _ => false end", "instunc", shard=200)
+    ctx.cov["end_to_end_theorems_apply"] = {"permutation_cases": len(perm_cases), "hypotheses_of_C01_perm_completed_correct_hold": len(perm_cases) - len(not_wf),
+                                            "unconditional_theorem_applies": len(perm_cases) - len(not_unc)}
+    if perm_cases and len(not_wf) == len(perm_cases):
+        ctx.violation("correspondence", "no permutation case of this run satisfies the hypotheses of the end-to-end theorems (wf_perm_desc): they would be vacuous for the harness's graphs",
+                      metas[perm_idx[0]], False)
 
 
 def known_input_defect(gd, cfgd, obs):
